@@ -6,8 +6,12 @@
 set -u
 ROOT="$(cd "$(dirname "${BASH_SOURCE[0]}")" && pwd)"
 export VERIF_ROOT="$ROOT"
-BIN="$ROOT/sim/target/checked/lmsim"
-ALL="C02 C03 C04 C06 C14 C15 C16 C19"
+BIN_RS="$ROOT/sim/target/checked/lmsim"
+BIN_PY="$ROOT/pysim/target/checked/lmsim-py"
+PYLIB="$(python3 -c "import sysconfig; print(sysconfig.get_config_var('LIBDIR') or '')" 2>/dev/null)"
+[ -n "$PYLIB" ] && export LD_LIBRARY_PATH="$PYLIB${LD_LIBRARY_PATH:+:$LD_LIBRARY_PATH}"
+ALL="C02 C03 C04 C06 C14 C15 C16 C18 C19"
+bin_for() { case "$1" in C18) echo "$BIN_PY" ;; *) echo "$BIN_RS" ;; esac; }
 mode="${1:-determinism}"
 case "$mode" in
   determinism)
@@ -16,6 +20,7 @@ case "$mode" in
     mkdir -p "$tmp"
     fail=0
     for id in $ALL; do
+      BIN="$(bin_for "$id")"
       for seed in 20260926 7; do
         VERIF_SEED=$seed "$BIN" dump "$id" quick --runs "$runs" --spread --workers 1  > "$tmp/a" 2>/dev/null || { echo "HARNESS: dump failed for $id"; fail=2; }
         VERIF_SEED=$seed "$BIN" dump "$id" quick --runs "$runs" --spread --workers 16 > "$tmp/b" 2>/dev/null || { echo "HARNESS: dump failed for $id"; fail=2; }
@@ -37,6 +42,7 @@ case "$mode" in
     ids="${*:-$ALL}"
     fail=0
     for id in $ids; do
+      BIN="$(bin_for "$id")"
       bad=0
       for s in $(seq 1 "$n"); do
         seed=$((s * 7919 + 13))
